@@ -134,11 +134,11 @@ def lname(layer):
 # ---------------------------------------------------------------- tests
 
 (PASS, FAIL, ERROR, SKIP_BODY, SKIP_DECO, XFAIL, ERR_TD, SUBFAIL2, SKIP_SETUP, XPASS,
- CLEANUP_ERR, SYSEXIT, SETUP_ERR, TD_ERR, SUB_ERR, SUBPASS_PASS, SUBPASS_FAIL, SWAP_ERR) = range(18)
+ CLEANUP_ERR, SYSEXIT, SETUP_ERR, TD_ERR, SUB_ERR, SUBPASS_PASS, SUBPASS_FAIL, SWAP_ERR, KBD) = range(19)
 KIND_NAMES = ['pass', 'fail', 'error', 'skip-in-body', 'skip-decorator', 'expected-failure',
               'body-error+tearDown-error', 'two-failing-subtests', 'skip-in-setUp', 'unexpected-success',
               'cleanup-error', 'SystemExit-in-body', 'setUp-error', 'tearDown-error', 'subtest-error+pass',
-              'passing-subtest-then-pass', 'passing-subtest-then-fail', 'error-while-stderr-silenced']
+              'passing-subtest-then-pass', 'passing-subtest-then-fail', 'error-while-stderr-silenced', 'KeyboardInterrupt-in-body']
 # number of failure / error / skip result events each kind produces
 N_FAIL = {FAIL: 1, SUBFAIL2: 2, SUBPASS_FAIL: 1}
 N_ERR = {ERROR: 1, ERR_TD: 2, CLEANUP_ERR: 1, SYSEXIT: 1, SETUP_ERR: 1, TD_ERR: 1, SUB_ERR: 1, SWAP_ERR: 1}
@@ -205,6 +205,8 @@ def mk_test(name, kind, layer=None, level=None, exc=0, out=None, count=None, bod
                     self.fail('sub2')
             elif kind == SYSEXIT:
                 raise SystemExit(3)
+            elif kind == KBD:
+                raise KeyboardInterrupt
             elif kind == SUB_ERR:
                 with self.subTest(i=1):
                     raise E('suberr')
